@@ -32,6 +32,7 @@ let c01_op (decls : e2_item list) ((name, a) as it : e2_item) : mop op option =
   | _ -> (match e2_core_op it with Some c -> Some (OCore c) | None -> None)
 let () =
   iter_lines Sys.argv.(1) (fun l ->
+    if String.length l > 0 && l.[0] = 'S' then print_endline (spin_line l) else
     if String.length l = 0 || l.[0] <> 'P' then print_endline "BADCASE" else
     let (decls, ts) = e2_parse l in
     let known = List.for_all (fun (n, _) -> n = "mutex" || n = "seq_mutex" || n = "rmutex") decls in
